@@ -17,7 +17,7 @@ use super::{
     tags::{self, WIN_PLATFORM_ID},
 };
 use crate::{
-    Diagnostic, GlyphMap, Kind, NodeOrToken,
+    Diagnostic, GlyphMap, Kind, Node, NodeOrToken,
     parse::SourceMap,
     token_tree::{
         Token,
@@ -388,6 +388,9 @@ impl<'a, V: VariationInfo> ValidationCtx<'a, V> {
 
     fn validate_vmtx(&mut self, node: &typed::VmtxTable) {
         for statement in node.statements() {
+            if self.reject_glyph_range_outside_class(statement.node()) {
+                continue;
+            }
             self.validate_glyph(&statement.glyph());
         }
     }
@@ -578,6 +581,9 @@ impl<'a, V: VariationInfo> ValidationCtx<'a, V> {
                     }
                 }
                 typed::GdefTableItem::Attach(node) => {
+                    if self.reject_glyph_range_outside_class(node.node()) {
+                        continue;
+                    }
                     self.validate_glyph_or_class(&node.target());
                     for idx in node.indices() {
                         if idx.parse_unsigned().is_none() {
@@ -588,6 +594,9 @@ impl<'a, V: VariationInfo> ValidationCtx<'a, V> {
                 //FIXME: only one rule allowed per glyph; we need
                 //to resolve glyphs here in order to track that.
                 typed::GdefTableItem::LigatureCaret(node) => {
+                    if self.reject_glyph_range_outside_class(node.node()) {
+                        continue;
+                    }
                     self.validate_glyph_or_class(&node.target());
                     if let typed::LigatureCaretValue::Index(node) = node.values() {
                         for idx in node.values() {
@@ -913,6 +922,11 @@ impl<'a, V: VariationInfo> ValidationCtx<'a, V> {
     }
 
     fn validate_gpos_statement(&mut self, node: &typed::GposStatement) {
+        if let Some(node) = node.node()
+            && self.reject_glyph_range_outside_class(node)
+        {
+            return;
+        }
         match node {
             typed::GposStatement::Type1(rule) => {
                 self.validate_glyph_or_class(&rule.target());
@@ -1027,6 +1041,11 @@ impl<'a, V: VariationInfo> ValidationCtx<'a, V> {
     }
 
     fn validate_gsub_statement(&mut self, node: &typed::GsubStatement) {
+        if let Some(node) = node.node()
+            && self.reject_glyph_range_outside_class(node)
+        {
+            return;
+        }
         match node {
             typed::GsubStatement::Type1(rule) => {
                 //TODO: ensure equal lengths, other requirements
@@ -1150,6 +1169,31 @@ impl<'a, V: VariationInfo> ValidationCtx<'a, V> {
                     }
                 }
             }
+        }
+    }
+
+    /// The parser accepts a glyph range ('a-z') anywhere it accepts a glyph name,
+    /// but a range is only valid inside of a glyph class ('[a-z]').
+    ///
+    /// If this statement contains such a range we report it and return `true`;
+    /// the statement does not have the expected shape and can't be validated
+    /// further.
+    fn reject_glyph_range_outside_class(&mut self, rule: &Node) -> bool {
+        fn find_range(node: &Node) -> Option<Range<usize>> {
+            node.iter_children()
+                .find_map(|child| match child.as_node() {
+                    Some(node) if node.kind() == Kind::GlyphRange => Some(child.range()),
+                    Some(node) if node.kind() != Kind::GlyphClass => find_range(node),
+                    _ => None,
+                })
+        }
+
+        match find_range(rule) {
+            Some(range) => {
+                self.error(range, "glyph range is only valid in a glyph class");
+                true
+            }
+            None => false,
         }
     }
 
